@@ -47,7 +47,7 @@ def one_step(cls, rep, verbose, patience, min_delta, best, since, loss):
     got_best = float(getattr(o, "best_train_loss" if cls == "TrainLoss" else "best_val_loss"))
     got = (got_best, int(o.epochs_since_best), o.best_model, bool(r))
     exp = (eb, es, em, er)
-    ok = (got[0] == exp[0] or abs(got[0] - exp[0]) < 1e-6) and got[1:] == exp[1:]
+    ok = got[0] == exp[0] and got[1:] == exp[1:]          # exact: a stored best value is one of the losses that were passed
     return ok, {"expected(best,since,best_model,stop)": list(map(str, exp)), "actual": list(map(str, got)),
                 "call": f"{cls}(patience={patience}, min_delta={min_delta}) after history {hist}; stop(loss={loss} as {rep})"}
 
@@ -73,6 +73,14 @@ def replay(req):
 
 
 def grid(classes, reps, verboses):
+    # fine values first: improvements below float32 resolution (python floats / float64 carry them, float32 inputs round)
+    for cls in classes:
+        for rep in reps:
+            for patience in range(0, 3):
+                for delta, best, loss in [(0.0, 0.5, 0.5 - 1e-10), (0.0, 1.0, 1.0 - 3e-9), (2.5e-9, 0.5, 0.5 - 3e-9), (0.0, 0.3, 0.3 - 1e-12),
+                                          (0.0, 0.5 - 1e-10, 0.5)]:
+                    for since in range(0, 3):
+                        yield cls, rep, 0, patience, delta, best, since, loss
     vals = [0.5, 1.0, 1.5]
     for cls in classes:
         for rep in reps:
@@ -106,13 +114,17 @@ def histories(tier):
     n = 0
     fails = []
     alphabet = [1.0, 0.5, 0.75]
+    fine = [0.5, 0.5 - 1e-10, 0.5 - 2e-10]          # distinct as python floats / float64, equal after rounding to float32
     maxlen = 4 if tier == "quick" else 6
     for cls in ["TrainLoss", "ValLoss"]:
         for rep in ["float", "np.float32", "np.float64", "jax0d"]:
             for patience in range(0, 3 if tier == "quick" else 4):
                 for delta in [0.0, 0.3]:
                     for L in range(1, maxlen + 1):
-                        for h in itertools.product(alphabet, repeat=L):
+                        hs = itertools.chain(itertools.product(alphabet, repeat=L), itertools.product(fine, repeat=L) if (delta == 0.0 and L <= 3) else [])
+                        for h in hs:
+                            if rep in ("np.float32", "jax0d"):
+                                h = tuple(float(np.float32(v)) for v in h)     # what the representation can hold
                             o = getattr(ml, cls)(patience=patience, min_delta=delta)
                             models = [f"m{i}" for i in range(L)]
                             got = []
